@@ -768,13 +768,22 @@ def _js_mh(res):
 
 # =====================================================================================
 # part C : TMCMC.run() with the in-process pool
+STAGE_CAP = 150
+
+
+class StageLimit(Exception):
+    pass
+
+
 def gen_run_cases(ctx):
     rng = ctx.rng
     cases = []
-    for k in range(ctx.scale(1, 10)):
+    for k in range(ctx.scale(3, 12)):
         dim = rng.choice([1, 2, 2])
         if k == 0:
             pri = [{"fam": "U", "a": 0.8, "b": 2.2}, {"fam": "DU", "a": 0.4, "b": 1.2}]
+        elif k == 2:
+            pri = [gen_prior(rng)]          # single-parameter calibration (np.cov returns a 0-d array)
         else:
             pri = [gen_prior(rng) for _ in range(dim)]
         lld = gen_ll_desc(rng, pri)
@@ -782,7 +791,7 @@ def gen_run_cases(ctx):
         lld["w"] = [width(p) * 10 ** rng.uniform(-1.2, -0.3) for p in pri]
         if k == 1:
             lld["kind"] = "hole"; lld["t"] = lld["c"][0] + 0.3 * lld["w"][0]
-        cases.append({"pri": pri, "ll": lld, "N": 60 if k < 2 else rng.choice([51, 60, 80, 120]),
+        cases.append({"pri": pri, "ll": lld, "N": 60 if k < 3 else rng.choice([51, 60, 80, 120]),
                       "steps": rng.choice([1, 2, 3]), "seed": rng.randrange(2 ** 31)})
     return cases
 
@@ -799,6 +808,8 @@ def run_tmcmc_case(c):
 
     def observer(func, args):
         if func is T.MCMC_MH:
+            if len(calls) >= STAGE_CAP * c["N"]:
+                raise StageLimit(f"exponent 1 not reached after {STAGE_CAP} stages")
             st0 = np.random.get_state()
             l0 = len(log)
             with np.errstate(all="ignore"):
@@ -818,6 +829,8 @@ def run_tmcmc_case(c):
                         mutation_steps=c["steps"], status_file_name=status)
             trace = t.run()
         res = ("ok", trace)
+    except StageLimit as ex:
+        res = ("err", "StageLimit", str(ex))
     except BaseException as ex:  # noqa
         res = ("err", err_kind(ex), repr(ex)[:200])
     finally:
@@ -831,7 +844,7 @@ def run_tmcmc_case(c):
 
 def oracle_run(c, o):
     out = []
-    base = {"call": "TMCMC.run", "ll": c["ll"]["kind"]}
+    base = {"call": "TMCMC.run", "ll": c["ll"]["kind"], "dim": len(c["pri"])}
     if o["res"][0] == "err":
         out.append((dict(base, symptom="raises:" + o["res"][1]), f"TMCMC.run raises {o['res'][2]}"))
         return out
